@@ -1,8 +1,399 @@
-import VncModel.Wire.Session
-namespace VncModel.Props.C03
-open VncModel.Wire
+import VncModel.Wire.CountLemmas
+import VncModel.Wire.EncLemmas
+import VncModel.Wire.SessionLemmas
+import VncModel.Leaf.EquivWire
+/-!
+# C03 — Server output is a well-formed RFB stream within negotiated capabilities
 
-theorem placeholder_rd16 (n : Nat) (h : n < 65536) (r : Bytes) : rd16 (be16 n ++ r) = some (n, r) :=
-  rd16_be16 n h r
+Property theorems only (helper lemmas: `VncModel/Wire/*Lemmas.lean`).
+
+## What is modelled (hand-written, core Lean, tied to the code by the correspondence run
+`harness/c03.c` ⇄ `Driver/C03.lean` and by the T0 constants `VncModel.Gen.C03`)
+
+* `Wire/Parse.lean`   the STRICT PARSER of the server → client stream: the specification of
+  "well-formed".  The compiled driver runs exactly this function on the bytes the real server wrote.
+* `Wire/Plan.lean`    the planning half of `rfbSendFramebufferUpdate`: per-encoding count expressions,
+  the emission splitters of corre.c / zlib.c / ultra.c / tight.c, the 16-bit `nRects` field, the
+  LastRect rule.
+* `Wire/Caps.lean`    the SetEncodings capability state machine.
+* `Wire/Session.lean` which pseudo-rectangles an update carries, the predicted rectangle headers,
+  handshake expectations, ServerInit.
+
+## What each theorem means for the property
+
+* `count_eq_emitted_*`         "each FramebufferUpdate announces exactly the number of rectangles that
+                               follow": the planning count of one region rectangle equals the number of
+                               rectangles the encoder emits, for every w, h ≥ 1.
+* `announced_eq_following`     the announced total equals the rectangles that follow, below 65535.
+* `announced_open_form`        otherwise (Tight, unknown count) 65535 is announced, a LastRect marker
+                               terminates the update and the client did enable LastRect.
+* `nrects_wraps_counterexample`, `sentinel_collision_counterexample`
+                               the excluded region (≥ 65535 rectangles) really fails — finding
+                               `c03-nrects-16bit`, replayed on the real code (corpus/C03/known-nrects-*).
+* `lengths_match*`             "every length field matches the bytes that follow": parse ∘ serialise = id.
+* `rects_inside_*`             emitted rectangles lie inside the region rectangle they come from, hence
+                               inside the (announced) framebuffer when the region does.
+* `only_advertised*`           every encoding / pseudo-encoding of a predicted update is Raw or was listed by
+                               the client in some SetEncodings message (capability invariant over all
+                               SetEncodings histories).
+* `serverinit_real`            the ServerInit the model demands carries the real size, pixel format and
+                               name, with a name length equal to the bytes that follow.
+
+## Partial (`…_partial`) and why
+* `rects_inside_scaled_partial`: for scaled clients the clamp of `rfbScaledCorrection` is proved on
+  its integer tail only; the floating-point head is executed (Lean `Float` = IEEE double, opaque to
+  the kernel) and compared with the real code on every run.
+* Tight with solid-area search (client enabled LastRect and w·h ≥ 4096): number and geometry of the
+  rectangles depend on the pixels; covered by `announced_open_form` (count unknown by design) and by
+  the strict parser at run time.
+* Hextile / Tight payload grammars: `lengths_match` holds for them through the generic `RectWF`
+  (the parser's own walk); explicit constructor lemmas exist for Raw, CopyRect, RRE, CoRRE, Zlib,
+  ZRLE, ZYWRLE, Ultra, cursors, all payload-free pseudo-encodings and Tight-fill.
+-/
+namespace VncModel.Props.C03
+open VncModel.Wire VncModel.Gen.C03
+
+/-! ## count = emission -/
+
+/-- CoRRE: the recursion of `rfbSendRectEncodingCoRRE` emits `((w-1)/mw+1)*((h-1)/mh+1)` rectangles,
+for every tile size ≥ 1 (the C recursion would not terminate for 0). -/
+theorem count_eq_emitted_corre (mw mh x y w h : Nat) (hmw : 1 ≤ mw) (hmh : 1 ≤ mh)
+    (hw : 1 ≤ w) (hh : 1 ≤ h) :
+    (correSplit mw mh (correFuel w h) x y w h).length = correCount mw mh w h :=
+  correSplit_length mw mh hmw hmh _ x y w h hw hh (by unfold correFuel; omega)
+
+example : (correSplit 48 48 (correFuel 96 97) 0 0 96 97).length = correCount 48 48 96 97 :=
+  count_eq_emitted_corre 48 48 0 0 96 97 (by decide) (by decide) (by decide) (by decide)
+example : correCount 48 48 96 97 = 6 := by decide
+
+/-- the guard of the Zlib/Ultra count expression and loop: `MAX_SIZE(w) / w` is never 0 (it is ≥ 2)
+for a non-empty rectangle, however wide — no division by zero, the loop terminates -/
+theorem maxLines_never_zero (R w : Nat) (hw : 1 ≤ w) : 2 ≤ maxLines R w := maxLines_ge_two R w hw
+
+example : maxLines ZLIB_MAX_RECT_SIZE 20000 = 2 := by decide
+
+/-- Zlib: `(h-1)/(ZLIB_MAX_SIZE(w)/w)+1` equals the number of iterations of the splitting loop -/
+theorem count_eq_emitted_zlib (x y w h : Nat) (hw : 1 ≤ w) (hh : 1 ≤ h) :
+    (zlibSplit x y w h).length = linesCount ZLIB_MAX_RECT_SIZE w h :=
+  countFor_eq_emitted rfbEncodingZlib false ⟨x, y, w, h⟩ _ ⟨hw, hh⟩ (by
+    simp [emitFor, rfbEncodingZlib, rfbEncodingCoRRE, rfbEncodingUltra]) |>.trans (by
+    simp [countFor, rfbEncodingZlib, rfbEncodingCoRRE, rfbEncodingUltra])
+
+example : (zlibSplit 0 0 256 128).length = 1 ∧ (zlibSplit 0 0 256 129).length = 2 := by decide
+
+/-- Ultra: same shape with `ULTRA_MAX_SIZE` -/
+theorem count_eq_emitted_ultra (x y w h : Nat) (hw : 1 ≤ w) (hh : 1 ≤ h) :
+    (ultraSplit x y w h).length = linesCount ULTRA_MAX_RECT_SIZE w h :=
+  countFor_eq_emitted rfbEncodingUltra false ⟨x, y, w, h⟩ _ ⟨hw, hh⟩ (by
+    simp [emitFor, rfbEncodingCoRRE, rfbEncodingUltra]) |>.trans (by
+    simp [countFor, rfbEncodingCoRRE, rfbEncodingUltra])
+
+example : (ultraSplit 3 5 16385 5).length = 3 := by decide
+
+/-- Tight / TightPng without solid-area search (client has no LastRect, or w·h < MIN_SPLIT_RECT_SIZE):
+`rfbNumCodedRectsTight` equals the number of sub-rectangles of SendRectSimple's two loops -/
+theorem count_eq_emitted_tight (lastRect : Bool) (x y w h : Nat) (hw : 1 ≤ w) (hh : 1 ≤ h)
+    (hs : tightIsSimple lastRect w h = true) :
+    (tightSimpleSplit x y w h).length = tightCount lastRect w h := by
+  rw [tightSimpleSplit_length x y w h hw hh, tightCount_of_simple lastRect w h hs]
+
+example : tightIsSimple true 4095 1 = true ∧ (tightSimpleSplit 0 0 4095 1).length = 2 := by decide
+example : (tightSimpleSplit 0 0 2049 33).length = 4 := by decide
+
+/-- all encodings at once: whenever the split is a function of the geometry, count = emission -/
+theorem count_eq_emitted (enc : Nat) (lastRect : Bool) (g : Geo) (l : List Geo) (hp : g.pos)
+    (he : emitFor enc lastRect g = some l) : l.length = countFor enc lastRect g :=
+  countFor_eq_emitted enc lastRect g l hp he
+
+example : ∃ l, emitFor rfbEncodingCoRRE false ⟨1, 2, 49, 48⟩ = some l ∧ l.length = 2 := ⟨_, rfl, by decide⟩
+
+/-! ## announced count = rectangles that follow -/
+
+/-- **Below 65535 rectangles the announced number is exactly the number of rectangles that follow**
+(pseudo-rectangles + CopyRect rectangles + encoded rectangles), no LastRect marker is sent, for
+every encoding, every region whose splits are determined by the geometry, every number of
+CopyRect and pseudo-rectangles. -/
+theorem announced_eq_following (enc : Nat) (lastRect : Bool) (gs : List Geo) (copyN pseudoN : Nat)
+    (hk : AllKnown enc lastRect gs)
+    (hsmall : copyN + sumCounts enc lastRect gs + pseudoN < nRectsSentinel) :
+    emittedCount enc lastRect copyN pseudoN gs =
+        some (nRectsField copyN (regionCount enc lastRect gs 0) pseudoN) ∧
+    sendsLastRect (regionCount enc lastRect gs 0) = false := by
+  have hr := regionCount_known enc lastRect gs hk 0
+  have hg := emittedCount_go_known enc lastRect gs hk 0
+  simp only [Nat.zero_add] at hr hg
+  have h65 : nRectsSentinel = 65535 := rfl
+  have hne : sumCounts enc lastRect gs ≠ nRectsSentinel := by omega
+  have hsl : sendsLastRect (sumCounts enc lastRect gs) = false := by
+    unfold sendsLastRect
+    exact beq_false_of_ne hne
+  rw [hr]
+  refine ⟨?_, hsl⟩
+  unfold emittedCount nRectsField
+  rw [hg, hr]
+  simp only [hsl, Bool.false_eq_true, if_false]
+  rw [if_pos hne, Nat.mod_eq_of_lt (by omega)]
+  congr 1
+  omega
+
+example : AllKnown rfbEncodingZlib false [⟨0, 0, 256, 129⟩, ⟨0, 200, 10, 10⟩] ∧
+    sumCounts rfbEncodingZlib false [⟨0, 0, 256, 129⟩, ⟨0, 200, 10, 10⟩] = 3 := by
+  refine ⟨?_, by decide⟩
+  intro g hg
+  simp only [List.mem_cons, List.not_mem_nil, or_false] at hg
+  rcases hg with rfl | rfl <;> exact ⟨⟨by decide, by decide⟩, _, rfl⟩
+
+/-- **The open form**: when the Tight planning loop meets a rectangle whose count is unknown, 65535
+is announced, the LastRect marker is appended, and this happens only for a client that enabled
+LastRect. -/
+theorem announced_open_form (enc : Nat) (lastRect : Bool) (gs : List Geo) (copyN pseudoN : Nat)
+    (ht : enc = rfbEncodingTight ∨ enc = rfbEncodingTightPng)
+    (hex : ∃ g ∈ gs, countFor enc lastRect g = 0) :
+    nRectsField copyN (regionCount enc lastRect gs 0) pseudoN = nRectsSentinel ∧
+    sendsLastRect (regionCount enc lastRect gs 0) = true ∧ lastRect = true := by
+  have hr := regionCount_sentinel enc lastRect gs ht hex 0
+  refine ⟨by simp [nRectsField, hr], by simp [sendsLastRect, hr], ?_⟩
+  obtain ⟨g, _, h0⟩ := hex
+  unfold countFor at h0
+  have e1 : enc ≠ rfbEncodingCoRRE := by rcases ht with rfl | rfl <;> decide
+  have e2 : enc ≠ rfbEncodingUltra := by rcases ht with rfl | rfl <;> decide
+  have e3 : enc ≠ rfbEncodingZlib := by rcases ht with rfl | rfl <;> decide
+  rw [if_neg e1, if_neg e2, if_neg e3, if_pos ht] at h0
+  exact (tightCount_zero lastRect g.w g.h h0).1
+
+example : countFor rfbEncodingTight true ⟨0, 0, 64, 64⟩ = 0 := by decide
+
+/-- **Excluded point, part 1 (finding `c03-nrects-16bit`)**: with 66048 Raw rectangles the field
+announces 512 — the `(uint16_t)` cast wraps. -/
+theorem nrects_wraps_counterexample (gs : List Geo) (hl : gs.length = 66048) :
+    nRectsField 0 (regionCount rfbEncodingRaw false gs 0) 0 = 512 ∧
+    emittedCount rfbEncodingRaw false 0 0 gs ≠ some 512 := by
+  have hr := regionCount_raw false gs 0
+  rw [hl] at hr
+  refine ⟨by rw [hr]; decide, ?_⟩
+  have hk : AllKnown rfbEncodingRaw false gs → False ∨ True := fun _ => Or.inr trivial
+  clear hk
+  -- emittedCount counts one rectangle per region rectangle
+  have hgo : ∀ (l : List Geo) (acc : Nat),
+      emittedCount.go rfbEncodingRaw false l acc = some (acc + l.length) := by
+    intro l
+    induction l with
+    | nil => intro acc; simp [emittedCount.go]
+    | cons g t ih =>
+      intro acc
+      have he : emitFor rfbEncodingRaw false g = some [g] := by
+        simp [emitFor, rfbEncodingRaw, rfbEncodingCoRRE, rfbEncodingUltra, rfbEncodingZlib,
+          rfbEncodingTight, rfbEncodingTightPng]
+      simp only [emittedCount.go, he, List.length_cons, List.length_nil]
+      rw [ih]
+      congr 1
+      omega
+  unfold emittedCount
+  rw [hgo gs 0, hr, hl]
+  decide
+
+/-- **Excluded point, part 2**: with exactly 65535 rectangles a client that never enabled LastRect
+is sent 0xFFFF *and* a LastRect marker. -/
+theorem sentinel_collision_counterexample (gs : List Geo) (hl : gs.length = 65535) :
+    nRectsField 0 (regionCount rfbEncodingRaw false gs 0) 0 = nRectsSentinel ∧
+    sendsLastRect (regionCount rfbEncodingRaw false gs 0) = true := by
+  have hr := regionCount_raw false gs 0
+  rw [hl] at hr
+  rw [hr]
+  exact ⟨by decide, by decide⟩
+
+example : (List.replicate 65535 (⟨0, 0, 1, 1⟩ : Geo)).length = 65535 := List.length_replicate
+
+/-! ## every length field matches the bytes that follow -/
+
+/-- **parse ∘ serialise = id** on whole streams: the strict parser accepts exactly the serialised
+bytes of well-formed messages and reconstructs them; in particular it consumes, for every
+rectangle, exactly the bytes of that rectangle. -/
+theorem lengths_match (c : PCtx) (ms : List ServerMsg) (hwf : ∀ m ∈ ms, MsgWF c m) :
+    parseServer c (serMsgs ms) = some ms :=
+  parseServer_serMsgs c ms hwf
+
+/-- one message, followed by anything -/
+theorem lengths_match_msg (c : PCtx) (m : ServerMsg) (wf : MsgWF c m) (rest : Bytes) :
+    parseMsg c (serMsg m ++ rest) = some (m, rest) :=
+  parseMsg_serMsg c m wf rest
+
+/-- one rectangle, followed by anything -/
+theorem lengths_match_rect (c : PCtx) (r : Rect) (wf : RectWF c r) (rest : Bytes) :
+    parseRect c (serRect r ++ rest) = some (r, rest) :=
+  parseRect_serRect c r wf rest
+
+/-- non-vacuity: a FramebufferUpdate of one Raw, one CopyRect and one Zlib rectangle plus a
+ServerCutText message is well-formed for a 16-bit client, hence round-trips -/
+example : ∃ ms : List ServerMsg, ms.length = 2 ∧ ∀ m ∈ ms, MsgWF ⟨2, false, false⟩ m := by
+  let c : PCtx := ⟨2, false, false⟩
+  let r1 : Rect := ⟨⟨1, 2, 3, 1, rfbEncodingRaw⟩, [1, 2, 3, 4, 5, 6]⟩
+  let r2 : Rect := ⟨⟨0, 0, 4, 4, rfbEncodingCopyRect⟩, be16 9 ++ be16 7⟩
+  let r3 : Rect := ⟨⟨5, 5, 8, 8, rfbEncodingZlib⟩, be32 3 ++ [9, 9, 9]⟩
+  have w1 : RectWF c r1 := rectWF_raw c 1 2 3 1 (by decide) (by decide) (by decide) (by decide) _ (by decide)
+  have w2 : RectWF c r2 := rectWF_copyRect c 0 0 4 4 (by decide) (by decide) (by decide) (by decide) 9 7
+  have w3 : RectWF c r3 := rectWF_lenPrefixed c 5 5 8 8 (by decide) (by decide) (by decide) (by decide)
+    rfbEncodingZlib (Or.inl rfl) 3 (by decide) [9, 9, 9] rfl
+  refine ⟨[.fbu 0 3 [r1, r2, r3], .cutText [0, 0, 0] 2 [104, 105]], rfl, ?_⟩
+  intro m hm
+  simp only [List.mem_cons, List.not_mem_nil, or_false] at hm
+  rcases hm with rfl | rfl
+  · refine MsgWF.fbuCounted 0 3 _ (by decide) (by decide) rfl (by decide) ?_
+    intro r hr
+    simp only [List.mem_cons, List.not_mem_nil, or_false] at hr
+    rcases hr with rfl | rfl | rfl
+    · exact ⟨w1, by decide⟩
+    · exact ⟨w2, by decide⟩
+    · exact ⟨w3, by decide⟩
+  · exact MsgWF.cutText _ _ _ rfl (by decide) (by decide)
+
+/-! ## rectangles stay inside -/
+
+/-- every rectangle the encoders emit for a region rectangle lies inside that region rectangle
+(CoRRE recursion, Zlib/Ultra bands, Tight's simple split, one-to-one encodings) -/
+theorem rects_inside_region_rect (enc : Nat) (lastRect : Bool) (g : Geo) (l : List Geo)
+    (he : emitFor enc lastRect g = some l) (q : Geo) (hq : q ∈ l) : q.inside g :=
+  emitFor_inside enc lastRect g l he q hq
+
+/-- hence inside the framebuffer announced to an unscaled client whenever the region rectangle is
+(the update region is a subset of the requested region, which the server clips to its screen) -/
+theorem rects_inside_announced_size (enc : Nat) (lastRect : Bool) (g : Geo) (l : List Geo) (W H : Nat)
+    (hg : g.x + g.w ≤ W ∧ g.y + g.h ≤ H) (he : emitFor enc lastRect g = some l) (q : Geo) (hq : q ∈ l) :
+    q.x + q.w ≤ W ∧ q.y + q.h ≤ H := by
+  have := emitFor_inside enc lastRect g l he q hq
+  unfold Geo.inside at this
+  omega
+
+example : ∃ l, emitFor rfbEncodingUltra false ⟨0, 0, 300, 200⟩ = some l ∧ l.length = 2 := ⟨_, rfl, by decide⟩
+
+/-- scaled clients, integer tail of `rfbScaledCorrection` only: after
+`if (x+w > to->width) w = to->width - x` the rectangle ends inside the scaled screen provided the
+scaled origin does.  PARTIAL: that the floating-point head yields `x ≤ to->width` is not proved
+(Lean's `Float` is opaque to the kernel); it is executed and compared with the real code. -/
+theorem rects_inside_scaled_partial (x w tw : Nat) (hx : x ≤ tw) :
+    x + (if x + w > tw then ((tw : Int) - x).toNat else w) ≤ tw := by
+  split <;> omega
+
+/-! ## only advertised encodings, pseudo-encodings -/
+
+/-- capability state after a whole history of SetEncodings messages -/
+def capsAfter (g : SrvCfg) : List (List Nat) → Caps
+  | [] => {}
+  | encs :: older => (setEncodings g (capsAfter g older) encs).1
+
+/-- everything listed in any message of the history (newest first) -/
+def histOf : List (List Nat) → List Nat
+  | [] => []
+  | encs :: older => histOf older ++ encs
+
+/-- **Capability invariant over all SetEncodings histories**: whatever flag is set after any
+sequence of SetEncodings messages (any subsets, any order, any repetition) is justified by a number
+the client listed; the preferred encoding is Raw or was listed. -/
+theorem only_advertised_caps (g : SrvCfg) (hist : List (List Nat)) :
+    Adv (histOf hist) (capsAfter g hist) := by
+  induction hist with
+  | nil => exact adv_initial _
+  | cons encs older ih => exact adv_setEncodings g ih encs
+
+example : (capsAfter {} [[rfbEncodingCopyRect], [rfbEncodingHextile, rfbEncodingLastRect]]).preferred
+    = some rfbEncodingHextile := by decide
+
+/-- **Only advertised encodings are used**: every encoding number of every rectangle the model
+predicts for an update is Raw or occurs in the client's SetEncodings history — pseudo-rectangles,
+CopyRect, encoded rectangles (including the Raw fall-backs of RRE / CoRRE / Zlib) and the LastRect
+marker.  Hypotheses: the capability invariant (`only_advertised_caps`), CopyRect rectangles exist
+only for a client that listed CopyRect (the copy region is only filled for `useCopyRect` clients,
+C02), and the marker is not forced by the 16-bit collision (`announced_eq_following` /
+`announced_open_form` show when that holds). -/
+theorem only_advertised (s : Screen) (c : Conn) (o : HookObs) (H : List Nat) (a : Adv H c.caps)
+    (hcopy : o.cpy ≠ [] → rfbEncodingCopyRect ∈ H)
+    (hmark : sendsLastRect (regionCount c.enc c.caps.lastRect (viewRegion s c o) 0) = true →
+      c.caps.lastRect = true) :
+    ∀ p ∈ (planUpdate s c o).2.pats, ∀ e ∈ p.encs, e = rfbEncodingRaw ∨ e ∈ H := by
+  intro p hp e he
+  unfold planUpdate at hp
+  simp only [List.mem_append] at hp
+  rcases hp with ((hp | hp) | hp) | hp
+  · exact Or.inr (pseudoPats_adv s c H a p hp e he)
+  · -- CopyRect
+    unfold copyPats at hp
+    simp only [List.mem_map] at hp
+    obtain ⟨g0, hg0, rfl⟩ := hp
+    simp only [RPat.encs, List.mem_singleton] at he
+    exact Or.inr (he ▸ hcopy (List.ne_nil_of_mem hg0))
+  · rcases pixPats_adv _ _ _ p hp e he with h | h
+    · -- the preferred encoding
+      unfold Conn.enc at h
+      cases hpref : c.caps.preferred with
+      | none => rw [hpref] at h; exact Or.inl h
+      | some v =>
+        rw [hpref] at h
+        simp only [Option.getD_some] at h
+        exact h ▸ a.preferred v hpref
+    · exact Or.inl h
+  · unfold tailPats at hp
+    split at hp
+    · rename_i hs
+      simp only [List.mem_singleton] at hp
+      subst hp
+      simp only [RPat.encs, List.mem_singleton] at he
+      exact Or.inr (he ▸ a.lastRect (hmark hs))
+    · simp at hp
+
+/-! ## ServerInit -/
+
+/-- **ServerInit reports the real screen**: the message the model demands (and the driver compares
+the wire bytes with) parses back to the real width, height, pixel format and name, and its name
+length field equals the number of name bytes that follow.  (The code cuts the name to 127 bytes —
+`strncpy(…, 127)` — so does `realServerInit`.) -/
+theorem serverinit_real (s : Screen) (hw : s.w < 65536) (hh : s.h < 65536)
+    (hpf : s.pf.length = sz_rfbPixelFormat) (rest : Bytes) :
+    parseServerInit (serverInitBytes s ++ rest) = some (realServerInit s, rest) ∧
+    (realServerInit s).w = s.w ∧ (realServerInit s).h = s.h ∧ (realServerInit s).pf = s.pf ∧
+    (realServerInit s).name = s.name.take 127 := by
+  refine ⟨?_, rfl, rfl, rfl, rfl⟩
+  apply parseServerInit_ser (realServerInit s) hw hh hpf
+  show (s.name.take 127).length < 4294967296
+  have := List.length_take_le 127 s.name
+  omega
+
+example : ∃ s : Screen, s.w = 800 ∧ s.pf.length = sz_rfbPixelFormat ∧ s.name.length = 200 :=
+  ⟨{ w := 800, h := 600, pf := List.replicate 16 0, name := List.replicate 200 65 }, rfl, by decide,
+   List.length_replicate⟩
 
 end VncModel.Props.C03
+
+/-! ## T1: the regenerated C count expressions are the model's count expressions
+
+`VncModel.Gen.Leaf.{rectCount_CoRRE, rectCount_Ultra, rectCount_Zlib, rfbNumCodedRectsTight}` are
+translated from /repo's current C source by `tools/c2lean.py` on every run (docs/T1.md): the bodies of
+the per-encoding counting loops of `rfbSendFramebufferUpdate` and `rfbNumCodedRectsTight` (tight.c).
+These wrappers are the proof obligations that break when the C expressions change; together with
+`count_eq_emitted_*` they tie the *C text* of the planning half to the emission model. -/
+namespace VncModel.Props.C03.T1
+open VncModel.Wire VncModel.Gen.C03
+
+/-- the CoRRE counting loop body as compiled now adds `correCount` -/
+theorem code_rectCount_CoRRE_eq_model (n w h mw mh : Nat) (hw : 1 ≤ w) (hh : 1 ≤ h) :
+    VncModel.Gen.Leaf.rectCount_CoRRE n w h mw mh = ((n + correCount mw mh w h : Nat) : Int) :=
+  VncModel.Leaf.rectCount_CoRRE_eq n w h mw mh hw hh
+
+/-- the Ultra counting loop body as compiled now adds `linesCount ULTRA_MAX_RECT_SIZE` -/
+theorem code_rectCount_Ultra_eq_model (n w h : Nat) (hh : 1 ≤ h) :
+    VncModel.Gen.Leaf.rectCount_Ultra n w h = ((n + linesCount ULTRA_MAX_RECT_SIZE w h : Nat) : Int) :=
+  VncModel.Leaf.rectCount_Ultra_eq n w h hh
+
+/-- the Zlib counting loop body as compiled now adds `linesCount ZLIB_MAX_RECT_SIZE` -/
+theorem code_rectCount_Zlib_eq_model (n w h : Nat) (hh : 1 ≤ h) :
+    VncModel.Gen.Leaf.rectCount_Zlib n w h = ((n + linesCount ZLIB_MAX_RECT_SIZE w h : Nat) : Int) :=
+  VncModel.Leaf.rectCount_Zlib_eq n w h hh
+
+/-- `rfbNumCodedRectsTight` as compiled now = `tightCount` -/
+theorem code_rfbNumCodedRectsTight_eq_model (x y : Int) (w h : Nat) (hw : 1 ≤ w) (hh : 1 ≤ h)
+    (lastRect : Bool) :
+    VncModel.Gen.Leaf.rfbNumCodedRectsTight x y w h lastRect = ((tightCount lastRect w h : Nat) : Int) :=
+  VncModel.Leaf.rfbNumCodedRectsTight_eq x y w h hw hh lastRect
+
+example : VncModel.Gen.Leaf.rectCount_Zlib 3 100 400 = 3 + 2 := by decide
+
+end VncModel.Props.C03.T1
